@@ -146,9 +146,15 @@ func c01Jobs(tier string) []Job {
 	var jobs []Job
 	for _, c := range c01Configs(tier) {
 		c := c
-		jobs = append(jobs, Job{Name: "verify " + c.String(), Run: func(r *Run) { c01Product(r, c) }})
+		for mi := 0; mi < 3; mi++ { // one job per message: the largest configurations are the tail of the run
+			mi := mi
+			jobs = append(jobs, Job{Name: fmt.Sprintf("verify %s msg#%d", c, mi), Run: func(r *Run) { c01Product(r, c, mi) }})
+		}
 		if c.Spell == 0 || c.Spell == 3 {
-			jobs = append(jobs, Job{Name: "stateful " + c.String(), Run: func(r *Run) { c01Stateful(r, c) }})
+			for _, leg := range []string{"receive", "replace"} {
+				leg := leg
+				jobs = append(jobs, Job{Name: "stateful " + leg + " " + c.String(), Run: func(r *Run) { c01Stateful(r, c, leg) }})
+			}
 		}
 	}
 	return jobs
@@ -182,7 +188,7 @@ func c01Semantic(c c01Config, seq []c01Atom) bool {
 	return true
 }
 
-func c01Product(r *Run, c c01Config) {
+func c01Product(r *Run, c c01Config, mi int) {
 	burn := InboundBurn(DomEth, 9, bigPow2(70), pad32(UserB.Addr), nil)
 	msgs := []struct {
 		name string
@@ -194,8 +200,10 @@ func c01Product(r *Run, c c01Config) {
 	for _, a := range atts {
 		enabled = append(enabled, a.Attester)
 	}
-	r.States++
-	for _, mm := range msgs {
+	if mi == 0 {
+		r.States++
+	}
+	for _, mm := range msgs[mi : mi+1] {
 		atoms := c01Atoms(c.NKeys, mm.m, other)
 		maxL := int(c.T) + 1
 		seq := make([]c01Atom, 0, maxL)
@@ -286,7 +294,7 @@ func c01Product(r *Run, c c01Config) {
 }
 
 // c01Stateful: reach (E,T) by real transactions, then submit through the handlers.
-func c01Stateful(r *Run, c c01Config) {
+func c01Stateful(r *Run, c c01Config, onlyLeg string) {
 	full := c.attesters()
 	g := BaseGenesis()
 	g.AttesterList = full[:1]
@@ -359,12 +367,14 @@ func c01Stateful(r *Run, c c01Config) {
 		return
 	}
 	base := w.Dump()
-	r.States++
+	if onlyLeg == "receive" {
+		r.States++
+	}
 	view := modelView // the enabled set according to the history of successful enable/disable transactions
 	inbound := InboundPlain(DomEth, 77, []byte("stateful leg"), nil)
 	original := RefMsg(0, Noble, DomEth, 5, pad32(UserA.Addr), distinct32(0x21), Zero32, []byte("to be replaced"))
 	other := []byte("another message")
-	for _, leg := range []string{"receive", "replace"} {
+	for _, leg := range []string{onlyLeg} {
 		m := inbound
 		if leg == "replace" {
 			m = original
